@@ -15,6 +15,97 @@
 #undef main
 
 #include "uscxml/util/String.h"
+#include "uscxml/Interpreter.h"
+#include <unistd.h>
+#include <sys/wait.h>
+#include <signal.h>
+#include <vector>
+
+// ---- promela mode -------------------------------------------------------------------
+// vectors: <text>\t<expected: integer | ERR>.  Every chunk of vectors is evaluated in a
+// forked child by the promela datamodel of a live interpreter (evalAsData and evalAsBool);
+// a crashing vector is reported as CRASH <signal> and the chunk continues after it.
+static const char* PML_DOC =
+    "<scxml xmlns=\"http://www.w3.org/2005/07/scxml\" version=\"1.0\" datamodel=\"promela\">"
+    "<datamodel><data id=\"a\" type=\"int\" expr=\"3\"/><data id=\"b\" type=\"int\" expr=\"5\"/>"
+    "<data id=\"arr\" type=\"int[3]\">[4,0,6]</data></datamodel>"
+    "<state id=\"s\"/></scxml>";
+
+static int promelaChunk(const std::vector<std::pair<std::string, std::string> >& v, size_t from, int wfd) {
+	// returns via pipe: lines "<idx>\t<data result>\t<bool result>"
+	setenv("USCXML_NOCACHE_FILES", "YES", 1);
+	FILE* out = fdopen(wfd, "w");
+	FILE* devnull = fopen("/dev/null", "w");
+	if (devnull) { dup2(fileno(devnull), 1); dup2(fileno(devnull), 2); }
+	uscxml::Interpreter interp = uscxml::Interpreter::fromXML(PML_DOC, "file:///verif/pml.scxml");
+	for (int i = 0; i < 6; i++) interp.step(0);
+	for (size_t i = from; i < v.size(); i++) {
+		std::string d, b;
+		fprintf(out, "%zu\tBEGIN\n", i);
+		fflush(out);
+		try {
+			uscxml::Data r = interp.getImpl()->evalAsData(v[i].first);
+			d = r.atom.size() ? r.atom : "EMPTY";
+		} catch (uscxml::Event e) { d = "ERR"; } catch (...) { d = "EXC"; }
+		try {
+			b = interp.getImpl()->isTrue(v[i].first) ? "1" : "0";
+		} catch (uscxml::Event e) { b = "ERR"; } catch (...) { b = "EXC"; }
+		fprintf(out, "%zu\t%s\t%s\n", i, d.c_str(), b.c_str());
+		fflush(out);
+	}
+	fflush(out);
+	_exit(0);
+}
+
+static int promelaMode(const char* file) {
+	std::ifstream in(file);
+	std::vector<std::pair<std::string, std::string> > v;
+	std::string line;
+	while (std::getline(in, line)) {
+		size_t t = line.find('\t');
+		if (t == std::string::npos) continue;
+		v.push_back(std::make_pair(line.substr(0, t), line.substr(t + 1)));
+	}
+	size_t from = 0;
+	long crashes = 0;
+	while (from < v.size()) {
+		int pfd[2];
+		if (pipe(pfd)) return 2;
+		pid_t pid = fork();
+		if (pid == 0) { close(pfd[0]); alarm(120); promelaChunk(v, from, pfd[1]); }
+		close(pfd[1]);
+		FILE* r = fdopen(pfd[0], "r");
+		char buf[4096];
+		size_t begun = from;
+		bool open = false;
+		size_t done = from;
+		while (fgets(buf, sizeof buf, r)) {
+			std::string l(buf);
+			while (l.size() && (l[l.size() - 1] == '\n')) l.erase(l.size() - 1);
+			size_t t1 = l.find('\t');
+			size_t idx = strtoul(l.substr(0, t1).c_str(), NULL, 10);
+			std::string rest = l.substr(t1 + 1);
+			if (rest == "BEGIN") { begun = idx; open = true; continue; }
+			open = false;
+			done = idx + 1;
+			printf("R\t%s\t%s\t%s\n", v[idx].first.c_str(), v[idx].second.c_str(), rest.c_str());
+		}
+		fclose(r);
+		int status = 0;
+		waitpid(pid, &status, 0);
+		if (open || (WIFSIGNALED(status) && done < v.size())) {
+			// the child died while evaluating vector `begun`
+			int sig = WIFSIGNALED(status) ? WTERMSIG(status) : 0;
+			printf("R\t%s\t%s\tCRASH%d\tCRASH%d\n", v[begun].first.c_str(), v[begun].second.c_str(), sig, sig);
+			crashes++;
+			from = begun + 1;
+		} else {
+			from = done < v.size() && done > from ? done : v.size();
+		}
+	}
+	printf("DONE %zu %ld\n", v.size(), crashes);
+	return 0;
+}
 
 // StateMachine::nameMatch is a (private) static member of the shipped scaffolding; reach it
 // through a subclass-free trick: the class declares it in a public section if compiled as is.
@@ -25,6 +116,7 @@ static bool scaffoldMatch(const std::string& d, const std::string& n) {
 int main(int argc, char** argv) {
 	if (argc < 3) { fprintf(stderr, "usage: fn_replay <mode> <file>\n"); return 2; }
 	std::string mode = argv[1];
+	if (mode == "promela") return promelaMode(argv[2]);
 	std::ifstream in(argv[2]);
 	if (!in) { perror("open"); return 2; }
 	long n = 0, diffs = 0;
